@@ -51,6 +51,9 @@ def norm_music(m):
     return bytes(b & 127 if i % 4 == 3 else b for i, b in enumerate(m))
 
 
+ENDINGS = [b'', b'\n', b'\r', b'\r\n', b'\n\r', b'\r\r', b' ', b'\t', b'\n\n', b' \r', b'\x0b', b'\x0c', b'\x85', b'\x1c']
+
+
 def check_cart(ctx, res, code_src, regs, version, label, tag, batch):
     inp = {'code': hx(code_src), 'version': version, 'label': hx(label) if label is not None else None,
            'regions': {k: hx(v) for k, v in regs.items()}}
@@ -94,7 +97,7 @@ def check_cart(ctx, res, code_src, regs, version, label, tag, batch):
 def run(ctx, res):
     rng = ctx.rng
     res.rule = ('carts with random/structured region bytes (uniform, 0xff, zero, single-bit, ramp), labels present/absent, '
-                'versions 0..2^31, code over all 256 P8SCII bytes in strings/comments/glyph identifiers, LF/CRLF, with/without '
+                'versions 0..2^31, code over all 256 P8SCII bytes in strings/comments/glyph identifiers, LF/CRLF, every kind of code ending (none, LF, bare CR, CRLF, LFCR, blanks, other line-break-like bytes), with/without '
                 'final newline; each written and read by the implementation and by the Lean model; malformed files for the reader; '
                 'distinct non-trivial = distinct (code, version, label?, region style) with non-empty code or non-zero regions')
     batch = []
@@ -109,6 +112,9 @@ def run(ctx, res):
             code = b'x="' + bytes(b for b in range(256) if b not in (0x22, 0x5c, 0x0a)) + b'"'
         elif i == 2:
             code = b'--' + bytes(b for b in range(256) if b != 0x0a) + b'\nx=1'
+        elif 3 <= i < 3 + len(ENDINGS):
+            # how the code ends decides whether the writer must add the line feed that separates it from `__gfx__`
+            code = rng.choice([b'x=1', b'-- done', b'x="s"', b'y=2\nx=1']) + ENDINGS[i - 3]
         else:
             code = gen_code.gen_code(rng, crlf=(rng.random() < 0.15))
         check_cart(ctx, res, code, regs, version, label, 'cart', batch)
